@@ -299,7 +299,9 @@ func c05NewVerifier(r *Run) {
 	}
 	for _, ret := range Returns(fn) {
 		if errKind(ret.Results[1]) != "nil" {
-			r.Check("NewSignatureVerifier:error-return", r.D.D(ret.Results[0]) == "nil" && errKind(ret.Results[1]) == "non", r.Where(ret), "refusal returns (nil, non-nil error)")
+			// the error is non-nil at this return: constructed here, or a value (e.g. the verdict a
+			// policy helper handed back) that this return is only reached with after it tested non-nil
+			r.Check("NewSignatureVerifier:error-return", r.D.D(ret.Results[0]) == "nil" && nonNilAt(ret.Results[1], ret.Block()), r.Where(ret), "refusal returns (nil, non-nil error)")
 		}
 	}
 }
